@@ -627,6 +627,7 @@ package bkl
 //@                 (= obj@arg (VList (plmvR (ls obj@pre) "$encode"))))
 //@ func process2RepeatObjMap(v, mergeFrom, mergeFromDocs, ec, k, r, depth) (res, err)
 //@   propagates all   [C08]
+//@   property C13 shallow   -- "an unset variable is an error" rests on a nested $repeat leaving the caller's variable table alone (write-site obligations)
 //@   decreases (- 1002 depth) 2
 //@   ensures (=> (not ((_ is VInt) r)) (isErr err))                                                       [C12]
 //@   at call process2#1
@@ -639,6 +640,7 @@ package bkl
 //@     transition (= i (+ i@iter 1))                                                                        [C12]
 //@ func process2RepeatObjList(v, mergeFrom, mergeFromDocs, ec, r, depth) (res, err)
 //@   propagates all   [C08]
+//@   property C13 shallow   -- "an unset variable is an error" rests on a nested $repeat leaving the caller's variable table alone (write-site obligations)
 //@   decreases (- 1002 depth) 2
 //@   ensures (=> (not ((_ is VInt) r)) (isErr err))                                                       [C12]
 //@   at call process2#1
@@ -852,7 +854,10 @@ package bkl
 //@   property C01, C02, C03, C04, C07, C10, C12, C13, C14, C17 shallow   -- every property that says "... is an error" is observed through this function: a failure below it must surface (propagates)
 //@   propagates all   [C08] [C20] [C07] [C03]
 //@   property C19
+//@   property C11   -- what is selected is computed from the documents as they are NOW: the method evaluates every stored document in this call and keeps nothing (frame)
 //@   modifies nothing
+//@   at call Parser.outputDocument#1
+//@     assert (= doc@arg elem)                                                     [C11]
 //@ func Parser.OutputToWriter(p, fh, format) (err)
 //@   property C01, C02, C03, C04, C07, C10, C12, C13, C14, C17 shallow   -- every property that says "... is an error" is observed through this function: a failure below it must surface (propagates)
 //@   property C19
